@@ -372,7 +372,14 @@ class NestedTextRenderer(Renderer):
         ret = []
         for decoded_node in decoded_nodes:
             if isinstance(decoded_node, NoValueDataNode):
-                ret.append('{}{}'.format(indent, decoded_node))
+                if isinstance(decoded_node.descriptor, ElementDescriptor):
+                    # An element whose data is not present (221YYY) has no value.
+                    # Show it like the other entries without value, i.e. the
+                    # descriptor only, so that the line cannot be taken for a
+                    # value entry when the text is converted back.
+                    ret.append('{}{}'.format(indent, decoded_node.descriptor))
+                else:
+                    ret.append('{}{}'.format(indent, decoded_node))
 
                 if isinstance(decoded_node, SequenceNode):
                     ret.extend(
